@@ -11,17 +11,22 @@ open SophiaModel SophiaModel.Term SophiaModel.Store SophiaModel.Adapter SophiaPr
 
 /-! ## 1. lawful implementations -/
 
-/-- An implementation behaves like a COLLECTION of quads (possibly with repetitions: `Vec`):
-pattern queries return the matching members with their multiplicity, `contains` is membership,
-`insert` / `remove` add / remove the quad and nothing else. `Inv` is the implementation's own
-invariant (for the indexed stores: `Good`, which holds in every reachable state by C01). -/
-structure Lawful {σ : Type} (I : Impl σ) where
+/-- The READ part: pattern queries return the matching members of `quads()` with their multiplicity,
+`contains` is membership. `Inv` is the implementation's own invariant (for the indexed stores: `Good`, which
+holds in every reachable state by C01). Enough for every theorem about what a view SHOWS; also satisfied by
+`Vec<Gspo<T>>`, whose `remove` (first match only) is not that of a `Lawful` collection. -/
+structure LawfulRead {σ : Type} (I : Impl σ) where
   Inv : σ → Prop
   n_ok : I.n = 3 ∨ I.n = 4
   qm : ∀ {s : σ} (p : Pat), Inv s →
     List.Perm (I.quadsMatching s p) ((I.quads s).filter (quadMatched I.n p))
   contains_iff : ∀ {s : σ} (q : Quad), Inv s → (I.n = 3 → q.g = none) → I.contains s q = qmem q (I.quads s)
   g_none : ∀ {s : σ} {x : Quad}, Inv s → I.n = 3 → x ∈ I.quads s → x.g = none
+
+/-- An implementation behaves like a COLLECTION of quads (possibly with repetitions: `Vec`):
+pattern queries return the matching members with their multiplicity, `contains` is membership,
+`insert` / `remove` add / remove the quad and nothing else. -/
+structure Lawful {σ : Type} (I : Impl σ) extends LawfulRead I where
   ins_inv : ∀ {s : σ} (q : Quad), Inv s → (I.n = 3 → q.g = none) → Inv (I.insert s q).1
   rem_inv : ∀ {s : σ} (q : Quad), Inv s → Inv (I.remove s q).1
   ins_ok : ∀ {s s' : σ} {q : Quad} {b : Bool}, Inv s → (I.n = 3 → q.g = none) →
@@ -178,6 +183,14 @@ def vecLawful (n : Nat) (hn : n = 3 ∨ n = 4) : Lawful (vecImpl n) where
     cases (Prod.mk.inj hi').2
   rem_ok := fun {d} q _ _ => SameSet.refl _
 
+/-- `Vec<Gspo<T>>`: lawful for READING only (its `remove` drops only the first match) -/
+def vecFirstLawfulRead (n : Nat) (hn : n = 3 ∨ n = 4) : LawfulRead (vecFirstImpl n) where
+  Inv := fun d => n = 3 → ∀ x ∈ d, x.g = none
+  n_ok := hn
+  qm := fun _ _ => List.Perm.refl _
+  contains_iff := fun {d} q hI hq => listContains_iff hn d q hI hq
+  g_none := fun {_ x} hI h3 hx => hI h3 x hx
+
 /-! ## 2. patterns of the adapters -/
 
 theorem quadMatched_dpat (gm : GM) (sm pm om : TM) (q : Quad) :
@@ -268,7 +281,7 @@ theorem sameSet_graph {a b : List Quad} (g : GName) (h : SameSet a b) :
 
 /-! ## 4. helpers for the mutation theorems -/
 
-theorem map_intoQuad_id {σ : Type} {I : Impl σ} (L : Lawful I) {s : σ} (hs : L.Inv s) (h3 : I.n = 3) : (I.quads s).map intoQuad = I.quads s := by
+theorem map_intoQuad_id {σ : Type} {I : Impl σ} (L : LawfulRead I) {s : σ} (hs : L.Inv s) (h3 : I.n = 3) : (I.quads s).map intoQuad = I.quads s := by
   have : ∀ x ∈ I.quads s, intoQuad x = x := by
     intro x hx
     have hg := L.g_none hs h3 hx
